@@ -136,23 +136,22 @@ Proof.
 Qed.
 Print Assumptions C14_qunit_defined.
 
-(* ---- unittwist / unittwist_norm *)
-(* the branch taken on the input decides which part gets unit norm; direction kept; None exactly below the threshold *)
+(* ---- unittwist / unittwist_norm (the irrotational branch zeroes the rotational part since fix 3bd9c1c) *)
+(* rotational input (|w| >= thr): unit rotational part and a positive multiple of the whole twist; irrotational input
+   (|w| < thr): unit translational part in the direction of v, rotational part exactly zero *)
 Theorem C14_unittwist : forall S U, m_unittwist Rops S = Some U ->
-  (thr_twist_w Rops <= norm3 Rops (tw_w S) -> normsq3 Rops (tw_w U) = 1) /\
-  (norm3 Rops (tw_w S) < thr_twist_w Rops -> normsq3 Rops (tw_v U) = 1) /\
-  (exists k, 0 < k /\ U = (let '(a,b,c,d,e,f) := S in (k*a, k*b, k*c, k*d, k*e, k*f))).
-Proof.
-  thr. intros S U H. um. destruct (unittwist_branch (thr_twist_S Rops) (thr_twist_w Rops) S U ltac:(lra) H) as [H1 H2].
-  repeat split; try assumption. eapply unittwist_direction; [|exact H]. lra.
-Qed.
+  (thr_twist_w Rops <= norm3 Rops (tw_w S) ->
+     normsq3 Rops (tw_w U) = 1 /\
+     exists k, 0 < k /\ U = (let '(a,b,c,d,e,f) := S in (k*a, k*b, k*c, k*d, k*e, k*f))) /\
+  (norm3 Rops (tw_w S) < thr_twist_w Rops ->
+     normsq3 Rops (tw_v U) = 1 /\ tw_w U = (0,0,0) /\ exists k, 0 < k /\ tw_v U = vscale3 Rops k (tw_v S)).
+Proof. thr. intros S U H. um. eapply unittwist_parts; [|exact H]. lra. Qed.
 Print Assumptions C14_unittwist.
 
 Theorem C14_unittwist_defined : forall S,
   (m_unittwist Rops S = None <-> norm6 Rops S < thr_twist_S Rops) /\
   (1/1000000 <= norm6 Rops S -> exists U, m_unittwist Rops S = Some U) /\
-  (normsq3 Rops (tw_w S) = 1 \/ (norm3 Rops (tw_w S) < thr_twist_w Rops /\ normsq3 Rops (tw_v S) = 1) ->
-     m_unittwist Rops S = Some S).
+  (normsq3 Rops (tw_w S) = 1 \/ (tw_w S = (0,0,0) /\ normsq3 Rops (tw_v S) = 1) -> m_unittwist Rops S = Some S).
 Proof.
   thr. intros S. um. split; [apply unittwist_none|]. split.
   - intros H. destruct (unittwist_m Rops (thr_twist_S Rops) (thr_twist_w Rops) S) eqn:E; [eexists; reflexivity|].
@@ -161,21 +160,12 @@ Proof.
 Qed.
 Print Assumptions C14_unittwist_defined.
 
-(* FULL STATEMENT (false for the code as it is):
-     forall S U, m_unittwist S = Some U -> unit_twist_spec thr_w U /\ m_unittwist U = Some U
-   i.e. the result is a unit twist in the sense of the library's own threshold and a second application changes nothing.
-   It fails when the rotational part is below the threshold but not zero: it is scaled by 1/|v| and can come out
-   above the threshold.  Witness S = (1/2,0,0, 3/4 thr,0,0). *)
-Theorem C14_unittwist_valid_idempotent_refuted :
-  exists S U, m_unittwist Rops S = Some U /\ ~ unit_twist_spec (thr_twist_w Rops) U /\ m_unittwist Rops U <> Some U.
-Proof. thr. um. apply unittwist_subthreshold_refuted; lra. Qed.
-Print Assumptions C14_unittwist_valid_idempotent_refuted.
-
-Theorem C14_unittwist_valid_idempotent_partial : forall S U, m_unittwist Rops S = Some U ->
-  thr_twist_w Rops <= norm3 Rops (tw_w S) \/ tw_w S = (0,0,0) ->
+(* FULL STATEMENT (true since fix 3bd9c1c; it was refuted by S = (1/2,0,0, 3/4 thr,0,0) before): every result is a unit
+   twist in the sense of the library's own threshold, and a second application changes nothing *)
+Theorem C14_unittwist_valid_idempotent : forall S U, m_unittwist Rops S = Some U ->
   unit_twist_spec (thr_twist_w Rops) U /\ m_unittwist Rops U = Some U.
-Proof. thr. intros S U H G. um. eapply unittwist_valid_partial; try exact H; try exact G; lra. Qed.
-Print Assumptions C14_unittwist_valid_idempotent_partial.
+Proof. thr. intros S U H. um. eapply unittwist_valid_idem; try exact H; lra. Qed.
+Print Assumptions C14_unittwist_valid_idempotent.
 
 Theorem C14_unittwist_norm : forall S,
   m_unittwist_norm Rops S =
@@ -188,38 +178,27 @@ Proof.
 Qed.
 Print Assumptions C14_unittwist_norm.
 
-(* ---- unittwist2 (no zero guard in the code: the guard is explicit here) *)
+(* ---- unittwist2 (no zero guard in the code: the guard `|w| >= thr or v <> 0` is explicit here) *)
 Theorem C14_unittwist2 : forall v0 v1 w,
   let '(u0,u1,x) := m_unittwist2 Rops (v0,v1,w) in
-  (thr_twist2_w Rops <= Rabs w -> x*x = 1) /\
-  (Rabs w < thr_twist2_w Rops -> (v0,v1) <> (0,0) -> u0*u0+u1*u1 = 1).
-Proof. thr. intros. um. apply unittwist2_branch. lra. Qed.
+  (thr_twist2_w Rops <= Rabs w -> x*x = 1 /\ exists k, 0 < k /\ (u0,u1,x) = (k*v0, k*v1, k*w)) /\
+  (Rabs w < thr_twist2_w Rops -> (v0,v1) <> (0,0) ->
+     u0*u0+u1*u1 = 1 /\ x = 0 /\ exists k, 0 < k /\ (u0,u1) = (k*v0, k*v1)).
+Proof. thr. intros. um. apply unittwist2_parts. lra. Qed.
 Print Assumptions C14_unittwist2.
 
-Theorem C14_unittwist2_direction_fixed : forall v0 v1 w,
-  (thr_twist2_w Rops <= Rabs w \/ (v0,v1) <> (0,0) ->
-     exists k, 0 < k /\ m_unittwist2 Rops (v0,v1,w) = (k*v0, k*v1, k*w)) /\
-  (w*w = 1 \/ (Rabs w < thr_twist2_w Rops /\ v0*v0+v1*v1 = 1) -> m_unittwist2 Rops (v0,v1,w) = (v0,v1,w)).
-Proof.
-  thr. intros. um. split; intros H.
-  - apply unittwist2_direction; [lra|exact H].
-  - apply unittwist2_fixed; [lra|exact H].
-Qed.
-Print Assumptions C14_unittwist2_direction_fixed.
+Theorem C14_unittwist2_fixed : forall v0 v1 w,
+  w*w = 1 \/ (w = 0 /\ v0*v0+v1*v1 = 1) -> m_unittwist2 Rops (v0,v1,w) = (v0,v1,w).
+Proof. thr. intros. um. apply unittwist2_fixed; [lra|assumption]. Qed.
+Print Assumptions C14_unittwist2_fixed.
 
-(* FULL STATEMENT (false): forall S <> 0, unit_twist2_spec (m_unittwist2 S) /\ m_unittwist2 (m_unittwist2 S) = m_unittwist2 S *)
-Theorem C14_unittwist2_valid_idempotent_refuted :
-  exists S, ~ unit_twist2_spec (thr_twist2_w Rops) (m_unittwist2 Rops S) /\
-            m_unittwist2 Rops (m_unittwist2 Rops S) <> m_unittwist2 Rops S.
-Proof. thr. um. apply unittwist2_subthreshold_refuted. lra. Qed.
-Print Assumptions C14_unittwist2_valid_idempotent_refuted.
-
-Theorem C14_unittwist2_valid_idempotent_partial : forall v0 v1 w,
-  thr_twist2_w Rops <= Rabs w \/ (w = 0 /\ (v0,v1) <> (0,0)) ->
+(* FULL STATEMENT (true since fix 3bd9c1c; refuted by (1/2, 0, 3/4 thr) before) *)
+Theorem C14_unittwist2_valid_idempotent : forall v0 v1 w,
+  thr_twist2_w Rops <= Rabs w \/ (v0,v1) <> (0,0) ->
   unit_twist2_spec (thr_twist2_w Rops) (m_unittwist2 Rops (v0,v1,w)) /\
   m_unittwist2 Rops (m_unittwist2 Rops (v0,v1,w)) = m_unittwist2 Rops (v0,v1,w).
-Proof. thr. intros. um. apply unittwist2_valid_partial; [lra|assumption]. Qed.
-Print Assumptions C14_unittwist2_valid_idempotent_partial.
+Proof. thr. intros. um. apply unittwist2_valid_idem; [lra|assumption]. Qed.
+Print Assumptions C14_unittwist2_valid_idempotent.
 
 Theorem C14_unittwist2_norm : forall S,
   m_unittwist2_norm Rops S = (let '(a,b,c) := m_unittwist2 Rops S in (a,b,c, twist2_theta_m Rops (thr_twist2_w Rops) S)).
@@ -246,44 +225,29 @@ Qed.
 Print Assumptions C14_angdiff_instances.
 
 (* ---- Twist3.unit / Twist2.unit (fix ca82070): they ARE unittwist / unittwist2 of the twist vector (definitionally for
-   the models; for all inputs on every path of the traced class methods by C14_bridge_twist_unit below), so the
-   full-strength statement holds: unit rotational part above the threshold, else unit translational part; direction kept;
-   a valid unit twist is returned unchanged.  What is still wrong is inherited from base.unittwist/unittwist2 only
-   (C14_unittwist_valid_idempotent_refuted/_partial: rotational part below the threshold but not zero). *)
+   the models; for all inputs on every path of the traced class methods by C14_bridge_twist_unit below), so everything
+   proved for unittwist / unittwist2 holds for them, at full strength since fix 3bd9c1c *)
 Theorem C14_twist3_unit : forall S,
   m_twist3_unit Rops S = m_unittwist Rops S /\
   (forall U, m_twist3_unit Rops S = Some U ->
-    (thr_twist_w Rops <= norm3 Rops (tw_w S) -> normsq3 Rops (tw_w U) = 1) /\
-    (norm3 Rops (tw_w S) < thr_twist_w Rops -> normsq3 Rops (tw_v U) = 1) /\
-    (exists k, 0 < k /\ U = (let '(a,b,c,d,e,f) := S in (k*a, k*b, k*c, k*d, k*e, k*f))) /\
-    (thr_twist_w Rops <= norm3 Rops (tw_w S) \/ tw_w S = (0,0,0) ->
-       unit_twist_spec (thr_twist_w Rops) U /\ m_twist3_unit Rops U = Some U)) /\
-  (normsq3 Rops (tw_w S) = 1 \/ (norm3 Rops (tw_w S) < thr_twist_w Rops /\ normsq3 Rops (tw_v S) = 1) ->
-     m_twist3_unit Rops S = Some S).
+     unit_twist_spec (thr_twist_w Rops) U /\ m_twist3_unit Rops U = Some U /\
+     exists k, 0 < k /\ tw_v U = vscale3 Rops k (tw_v S)).
 Proof.
-  intros S. split; [reflexivity|]. split.
-  - intros U H. change (m_unittwist Rops S = Some U) in H.
-    destruct (C14_unittwist S U H) as (H1 & H2 & H3).
-    split; [exact H1|]. split; [exact H2|]. split; [exact H3|].
-    intros G. exact (C14_unittwist_valid_idempotent_partial S U H G).
-  - intros H. apply (C14_unittwist_defined S). exact H.
+  intros S. split; [reflexivity|]. intros U H. change (m_unittwist Rops S = Some U) in H.
+  destruct (C14_unittwist_valid_idempotent S U H) as [H1 H2]. split; [exact H1|]. split; [exact H2|].
+  destruct (C14_unittwist S U H) as [Hr Hi].
+  destruct (Rle_or_lt (thr_twist_w Rops) (norm3 Rops (tw_w S))) as [Hc|Hc].
+  - destruct (Hr Hc) as (_ & k & Hk & ->). exists k. split; [exact Hk|]. destruct_tuples. reflexivity.
+  - destruct (Hi Hc) as (_ & _ & E). exact E.
 Qed.
 Print Assumptions C14_twist3_unit.
 
 Theorem C14_twist2_unit : forall v0 v1 w,
   m_twist2_unit Rops (v0,v1,w) = m_unittwist2 Rops (v0,v1,w) /\
-  (let '(u0,u1,x) := m_twist2_unit Rops (v0,v1,w) in
-   (thr_twist2_w Rops <= Rabs w -> x*x = 1) /\
-   (Rabs w < thr_twist2_w Rops -> (v0,v1) <> (0,0) -> u0*u0+u1*u1 = 1)) /\
-  (thr_twist2_w Rops <= Rabs w \/ (w = 0 /\ (v0,v1) <> (0,0)) ->
+  (thr_twist2_w Rops <= Rabs w \/ (v0,v1) <> (0,0) ->
      unit_twist2_spec (thr_twist2_w Rops) (m_twist2_unit Rops (v0,v1,w)) /\
-     m_twist2_unit Rops (m_twist2_unit Rops (v0,v1,w)) = m_twist2_unit Rops (v0,v1,w)) /\
-  (w*w = 1 \/ (Rabs w < thr_twist2_w Rops /\ v0*v0+v1*v1 = 1) -> m_twist2_unit Rops (v0,v1,w) = (v0,v1,w)).
-Proof.
-  intros v0 v1 w. split; [reflexivity|]. split; [apply (C14_unittwist2 v0 v1 w)|]. split.
-  - apply (C14_unittwist2_valid_idempotent_partial v0 v1 w).
-  - apply (C14_unittwist2_direction_fixed v0 v1 w).
-Qed.
+     m_twist2_unit Rops (m_twist2_unit Rops (v0,v1,w)) = m_twist2_unit Rops (v0,v1,w)).
+Proof. intros v0 v1 w. split; [reflexivity|]. apply (C14_unittwist2_valid_idempotent v0 v1 w). Qed.
 Print Assumptions C14_twist2_unit.
 
 (* ---- trnorm2 (new with the fix 7bb8ca6), 2x2 and 3x3: projects onto SO(2) / SE(2), keeps the direction of the second
